@@ -4,7 +4,7 @@ cAddrs == {"a1", "a2", "a3", "a4"}
 cKeyOrd == <<"v1", "v2", "none", "v3", "v4", "v9">>
 cGenesis == [keypers |-> <<"a1", "a2", "a3">>, thr |-> 2, eon0 |-> 0,
              vals |-> [k \in {"v1", "v2", "none", "v3", "v4", "v9"} |-> IF k = "v9" THEN 10 ELSE 0],
-             forkOn |-> FALSE, forkH |-> 0, dev |-> FALSE]
+             forkOn |-> FALSE, forkH |-> 0, dev |-> FALSE, legacy |-> FALSE]
 (* candidates 1 and 2 differ ONLY in the threshold: votes for them must not be merged *)
 cCands == << [keypers |-> <<"a1", "a2", "a3", "a4">>, thr |-> 2, act |-> 5, idx |-> 1],
              [keypers |-> <<"a1", "a2", "a3", "a4">>, thr |-> 1, act |-> 5, idx |-> 1],
